@@ -94,12 +94,20 @@ def observe(c):
     for n in range(N):
         for s in range(S):
             k += 1
-            r = tr.get_state(sref(s, k), n)
+            try:
+                r = tr.get_state(sref(s, k), n)
+                chk(r.units)
+                o["states"].append([float(v) for v in r.value])
+            except Exception as e:
+                o["states"].append([RAISED] * C)
+                o.setdefault("raised", []).append("get_state: %s: %s" % (type(e).__name__, str(e)[:80]))
+        try:
+            r = tr.get_state(None, n)
             chk(r.units)
-            o["states"].append([float(v) for v in r.value])
-        r = tr.get_state(None, n)
-        chk(r.units)
-        o["wholes"].append([float(v) for v in r.value])
+            o["wholes"].append([float(v) for v in r.value])
+        except Exception as e:
+            o["wholes"].append([RAISED] * (S * C))
+            o.setdefault("raised", []).append("get_state (whole): %s: %s" % (type(e).__name__, str(e)[:80]))
     for s in range(S):
         for cell in range(C):
             k += 1
@@ -110,9 +118,13 @@ def observe(c):
             except Exception as e:
                 o["trajs"].append([RAISED] * N)
                 o.setdefault("raised", []).append("get_trajectory: %s: %s" % (type(e).__name__, str(e)[:80]))
-        r = tr.get_trajectory(sref(s, k), merge=True)
-        chk(r.units)
-        o["merged"].append([float(v) for v in r.value])
+        try:
+            r = tr.get_trajectory(sref(s, k), merge=True)
+            chk(r.units)
+            o["merged"].append([float(v) for v in r.value])
+        except Exception as e:
+            o["merged"].append([RAISED] * N)
+            o.setdefault("raised", []).append("get_trajectory (merged): %s: %s" % (type(e).__name__, str(e)[:80]))
     o["units_ok"] = units_ok
     o["direct"] = [float(v) for v in tr.data.value]
     for q in c["queries"]:
